@@ -32,10 +32,10 @@ func (e *zzEnv) zzCheckC02(tag string, W []string, id int, ack bool, kind string
 			zzAssert(!e.attached(a), tag+".b.laggard-still-in-replicas")
 			_, inBackends := e.c.backend.backends[a]
 			zzAssert(!inBackends, tag+".b.laggard-still-in-backends")
-			for _, wa := range e.c.backend.writerIndex {
+			for _, wa := range zzWriterAddrs(e.c) {
 				zzAssert(wa != a, tag+".b.laggard-still-writer")
 			}
-			for _, ra := range e.c.backend.readerIndex {
+			for _, ra := range zzReaderAddrs(e.c) {
 				zzAssert(ra != a, tag+".b.laggard-still-reader")
 			}
 		}
